@@ -1560,7 +1560,11 @@ class TransactionBuilder:
                         ),
                         self.context,
                     )
-                ) and candidate_inputs:
+                ) and (
+                    candidate_inputs
+                    and len(self.collaterals)
+                    < self.context.protocol_param.max_collateral_inputs
+                ):
                     candidate = candidate_inputs.pop()
                     if (
                         candidate not in self.collaterals
